@@ -180,7 +180,36 @@ class FakeWriter:
         return self.closed
 
     def get_extra_info(self, name: str, default: t.Any = None) -> t.Any:
+        if name == "socket":
+            # the transport's socket object: options set on it are honoured by the delivery below (SO_RCVLOWAT: the event loop is not woken,
+            # i.e. nothing reaches the StreamReader, until that many octets are waiting - or the peer has closed)
+            if not hasattr(self, "_sockobj"):
+                self._sockobj = _TransportSocket(self)
+            return self._sockobj
         return default
+
+
+class _TransportSocket:
+    def __init__(self, writer: "FakeWriter") -> None:
+        self.writer = writer
+        self.options: t.Dict[t.Tuple[int, int], t.Any] = {}
+
+    def setsockopt(self, level: int, opt: int, value: t.Any) -> None:
+        self.options[(level, opt)] = value
+        if level == socket.SOL_SOCKET and opt == getattr(socket, "SO_RCVLOWAT", -1):
+            self.writer.rcvlowat = int(value)
+
+    def getsockopt(self, level: int, opt: int, *a: t.Any) -> t.Any:
+        return self.options.get((level, opt), 0)
+
+    def getpeername(self) -> t.Any:
+        return ("dc", 0)
+
+    def getsockname(self) -> t.Any:
+        return ("client", 0)
+
+    def fileno(self) -> int:
+        return -1
 
 
 def deliver(reader: asyncio.StreamReader, chunks: t.Sequence[t.Optional[bytes]]) -> None:
@@ -237,9 +266,20 @@ class Hub:
         if not self.pending:
             return False
         w, chunks = self.pending[0]
-        deliver(w.reader, [chunks.pop(0)])
+        c = chunks.pop(0)
         if not chunks:
             self.pending.pop(0)
+        low = getattr(w, "rcvlowat", 1)
+        if low > 1 and isinstance(c, (bytes, bytearray)):
+            # kernel receive queue below the low-water mark: the loop is not woken yet
+            w.backlog = getattr(w, "backlog", b"") + bytes(c)
+            if len(w.backlog) < low:
+                return True
+            c, w.backlog = w.backlog, b""
+        elif low > 1 and getattr(w, "backlog", b""):
+            deliver(w.reader, [w.backlog])
+            w.backlog = b""
+        deliver(w.reader, [c])
         return True
 
 
